@@ -237,3 +237,61 @@ PROPS["C20"] = {
     ],
     "assumptions": [],
 }
+
+_HTTP_RULE = ("stream http: the real httpserver router (real Configure, in-process via httptest) wired to the real InMemoryStorage and a persistent real CachingEvaluator; per case a configuration "
+              "(2 clusters incl. a name with a space, client profile, consumer/storage/evaluator/notifier modules) is loaded into viper from generated TOML, storage is populated (topics with "
+              "and without leaderless partitions, 4 group names incl. dotted/unicode/space), then 25-65 steps mix commits, broker and owner updates, every deletion route (storage request with "
+              "and without topic, the cluster module's and the reaper's sequences incl. their Delete*Metrics calls, HTTP DELETE), expiry by time shifting, cache ageing, /metrics scrapes and GETs of "
+              "every /v3 route with parameters from {existing, unknown, case variants, dotted viper paths, spaces, unicode, %2F, %00, dot segments} plus trailing slashes, doubled slashes, upper-cased "
+              "prefixes, extra segments, other methods; each case ends with a scrape after the cache lifetime and a read of everything. Responses are decoded with the harness's own structs for the "
+              "documented JSON (not Burrow's types) and compared field by field with the model; Prometheus text is parsed into series. Non-trivial = a 200 answer with a payload or a non-empty scrape.")
+_HTTP_STREAM = {"name": "http", "trivial": r"^(ok|code=(404|tsr|405|301|307).*|code=200 series=-)$", "hist_keys": ["code", "kind"],
+                "scale": {"quick": 1, "thorough": 10}, "seeds": {"quick": 1, "thorough": 3}}
+PROPS["C16"] = {
+    "lean_modules": ["BurrowVerif.Props.C16"],
+    "props_files": ["BurrowVerif/Props/C16.lean"],
+    "anchors": ["core/internal/httpserver/coordinator.go", "core/internal/httpserver/kafka.go", "core/internal/httpserver/config.go", "core/internal/httpserver/structs.go"],
+    "streams": [dict(_HTTP_STREAM, keys={"code", "ct", "err", "hdr", "kind", "key"}, spec_tags=["D15", "D18"])],
+    "rule": _HTTP_RULE,
+    "trusted": [
+        "httprouter is modelled by its documented contract (Model/Http.lean: route); for an unmatched path ending in '/' its answer (redirect or 404) depends on the shape of its radix tree and both are admitted",
+        "net/http (connection handling, header limits, URL parsing: the decoded path is taken from net/url), TLS and the listeners are not modelled",
+        "the route table is regenerated from coordinator.go on every run (harness facts, go/ast) and the theorems quantify over it",
+    ],
+    "assumptions": PROPS["C01"]["assumptions"],
+}
+PROPS["C17"] = {
+    "lean_modules": ["BurrowVerif.Props.C17"],
+    "props_files": ["BurrowVerif/Props/C17.lean"],
+    "anchors": ["core/internal/httpserver/prometheus.go", "core/internal/httpserver/kafka.go", "core/internal/storage/inmemory.go", "core/protocol/storage.go", "core/protocol/evaluator.go"],
+    "streams": [dict(_HTTP_STREAM, keys=None, spec_tags=["D8"])],
+    "rule": _HTTP_RULE,
+    "trusted": [
+        "the Prometheus client library is modelled as a map from (vector, label values) to the last value set; the text exposition is parsed by the harness",
+        "a status (JSON or metrics) is served through the evaluator cache: staleness within the cache lifetime is C05's allowance; 'nothing outlives its deletion' is claimed for reads after the lifetime",
+        "float64 conversion of uint64/int64 gauge values is exact below 2^53 (generator stays below)",
+    ],
+    "assumptions": PROPS["C01"]["assumptions"],
+}
+
+PROPS["C18"] = {
+    "lean_modules": ["BurrowVerif.Props.C18"],
+    "props_files": ["BurrowVerif/Props/C18.lean"],
+    "anchors": ["core/internal/httpserver/config.go", "core/internal/httpserver/kafka.go", "core/internal/httpserver/structs.go"],
+    "streams": [{"name": "confhttp", "keys": None, "spec_tags": [], "trivial": r"^(ok|code=404.*)$", "hist_keys": ["code", "kind"],
+                 "scale": {"quick": 2, "thorough": 20}, "seeds": {"quick": 1, "thorough": 3}},
+                dict(_HTTP_STREAM, keys={"code", "ct", "err", "hdr", "kind", "key", "mod", "list", "coord", "leak"}, spec_tags=[])],
+    "rule": ("stream confhttp: generated configurations (0-2 SASL profiles with passwords, 0-1 TLS profiles, 1-3 client profiles referring to them, 1-2 clusters, 0-2 consumers of both "
+             "classes, storage, evaluator, 0-3 notifiers of every class — http with basic-auth password, email with SMTP password, slack, null — with and without extras; module names incl. "
+             "spaces, unicode, upper case and the words 'password' and 'extras') rendered to TOML TWICE with two different random 23-character passwords and loaded into viper; every config and "
+             "cluster route is requested with every configured name, 'nope', and dotted names reaching towards .password/.username/.extras/.class-name/.servers and across sections. Each "
+             "response is compared field by field with the model's (which is given the flattened configuration), so the two rounds are compared through the model; additionally (a TEST, "
+             "labelled as such) no response body or header may contain any of the configured password values (leak=1 otherwise). Non-trivial = a 200 answer. | " + _HTTP_RULE),
+    "trusted": [
+        "viper is modelled as a flattened map from lower-cased key paths to values with prefix-based IsSet (Model/Http.lean Cfg); validated differentially incl. dotted names; module names that "
+        "themselves contain dots are outside the generator (viper itself treats them inconsistently)",
+        "log output and the process environment are not modelled (AutomaticEnv is only set up in main.go)",
+        "the list of viper key literals of package httpserver is regenerated from the source (go/ast) on every run",
+    ],
+    "assumptions": [],
+}
